@@ -50,6 +50,9 @@ var hugeCore = []hugeShape{
 	{elem: "i16", size: 1<<17 + 1, fill: 1 << 16, post: 0},
 	{elem: "", size: 1<<32 + 100000, fill: 150000, post: 1500},
 	{elem: "int", size: 3 << 32, fill: 140000, post: 1500},
+	// element types of size zero (one value): Count is 1 after any number of Adds
+	{elem: kindUnit, size: 1<<17 + 1, fill: 150000, post: 1500},
+	{elem: kindZArr, size: 1<<32 + 8, fill: 100000, post: 1500},
 }
 
 // hugeMore runs in the thorough tier; two of them (by seed) in the quick tier.
@@ -75,6 +78,11 @@ var hugeMore = []hugeShape{
 	{elem: "any", size: 1<<32 - 1, fill: 50000, post: 1500},
 	{elem: "f64", size: 1<<40 + 70000, fill: 100000, post: 1500},
 	{elem: "", size: math.MaxInt - 1, fill: 100000, post: 1500},
+	{elem: kindZNest, size: math.MaxInt, fill: 100000, post: 1500},
+	{elem: kindUnit, size: 2, fill: 300000, post: 1},
+	{elem: kindZArr, size: 1 << 14, fill: 100000, post: 1500},
+	{elem: kindBool, size: 300000, fill: 100000, post: 1500},
+	{elem: kindU8, size: 1 << 18, fill: 100000, post: 1500},
 }
 
 // TestC19Huge: buffers of 2^17 .. 2^20 elements, filled, Reset and reused;
@@ -148,13 +156,13 @@ func TestC19Reuse(t *testing.T) {
 	slot := h.Slot()
 	tl := vk.NewTally()
 	n := 0
-	kindRot := h.RNG("kinds").Intn(len(detKinds))
+	kindRot := h.RNG("kinds").Intn(len(baseKinds))
 	for _, size := range []int{16, 32, 64, 100} {
 		for _, mult := range []int{21, 33, 47} {
 			for rep := 0; rep < h.Pick(2, 12); rep++ {
 				c := ReuseCase{Size: size, D: size*mult + 1 + rep, M: 24}
 				if n%2 == 1 { // every other case with an element kind, in turn
-					c.Elem = detKinds[(n/2+kindRot)%len(detKinds)]
+					c.Elem = baseKinds[(n/2+kindRot)%len(baseKinds)]
 				}
 				o := &vk.Obs{}
 				slot.Enter(c)
@@ -175,48 +183,6 @@ func TestC19Reuse(t *testing.T) {
 	h.MergeTally(tl)
 }
 
-// buildStream makes a stream over the values 0..d-1 in which value v occurs
-// 1..k times, in one of three interleavings.
-func buildStream(d, k int, order string, rng *vk.RNG) []int {
-	if k < 1 {
-		k = 1
-	}
-	reps := make([]int, d)
-	total := 0
-	for v := range reps {
-		reps[v] = 1 + rng.Intn(k)
-		total += reps[v]
-	}
-	out := make([]int, 0, total)
-	switch order {
-	case "adjacent": // v v v w w x …: a repeat follows its original immediately
-		for v, r := range reps {
-			for j := 0; j < r; j++ {
-				out = append(out, v)
-			}
-		}
-	case "rounds": // every value once, then every value with a 2nd occurrence, …: repeats far apart
-		for j := 0; j < k; j++ {
-			for v, r := range reps {
-				if r > j {
-					out = append(out, v)
-				}
-			}
-		}
-	default: // "shuffle": uniformly interleaved
-		for v, r := range reps {
-			for j := 0; j < r; j++ {
-				out = append(out, v)
-			}
-		}
-		for i := len(out) - 1; i > 0; i-- {
-			j := rng.Intn(i + 1)
-			out[i], out[j] = out[j], out[i]
-		}
-	}
-	return out
-}
-
 var orders = []string{"shuffle", "rounds", "adjacent"}
 var listedSizes = []int{2, 3, 4, 8, 16, 64}
 
@@ -226,6 +192,11 @@ var listedSizes = []int{2, 3, 4, 8, 16, 64}
 // bits of a float64), and the ends of the int range.
 var farSizes = []int{1 << 16, 1<<16 + 8, 1<<24 + 8, 1 << 31, 1<<31 + 5, 1<<32 - 1, 1 << 32, 1<<32 + 1, 1<<32 + 8, 1<<32 + 100,
 	3 << 32, 1 << 40, 1 << 52, 1<<53 + 1, 1 << 62, math.MaxInt - 1, math.MaxInt}
+
+// detKindsWeighted: the kinds with more values than a stream has twice each,
+// those with few values (struct{}, [0]int, bool, ...) once: about a tenth of
+// all det cases has one of the latter.
+var detKindsWeighted = append(append(append([]string(nil), baseKinds...), baseKinds...), fewKinds...)
 
 // genDet draws a stream for the deterministic leg.  Small streams are drawn
 // element by element (they shrink well); large ones are expanded from a drawn
@@ -238,7 +209,7 @@ var farSizes = []int{1 << 16, 1<<16 + 8, 1<<24 + 8, 1 << 31, 1<<31 + 5, 1<<32 - 
 func genDet(t *rapid.T) DetCase {
 	c := genDetStream(t)
 	if rapid.Bool().Draw(t, "elemKind") {
-		c.Elem = rapid.SampledFrom(detKinds).Draw(t, "elem")
+		c.Elem = rapid.SampledFrom(detKindsWeighted).Draw(t, "elem")
 	}
 	if rapid.IntRange(0, 49).Draw(t, "farSize") == 0 {
 		c.Size = rapid.SampledFrom(farSizes).Draw(t, "far")
@@ -329,11 +300,64 @@ func statStreams(h *vk.H, R int) []StatCase {
 	}
 	// every other stream with an element kind; which streams and which kinds
 	// turns with the seed (drawn last: the streams are those of the plain leg)
-	krot := rng.Intn(2 * len(detKinds))
+	krot := rng.Intn(2 * len(baseKinds))
 	for i := range out {
 		if (i+krot)%2 == 1 {
-			out[i].Elem = detKinds[(i/2+krot/2)%len(detKinds)]
+			out[i].Elem = baseKinds[(i/2+krot/2)%len(baseKinds)]
 		}
+	}
+	return out
+}
+
+// bigR is the number of independent counters for a buffer of `size` elements
+// and a stream of some 10*size values: R*size is held at `work` (the cost of
+// the case), R stays within 128 .. most.  R >= 128 keeps the band of 8
+// standard errors beyond 7 normal deviations (see studentBand).
+func bigR(size, work, most int) int { return min(max(work/size, 128), most) }
+
+// bigSizesQuick are the buffer sizes every quick run puts under the
+// unbiasedness test besides the listed small ones; a run adds one size of
+// midPoolQuick and one of bigPoolQuick, by the seed.  The thorough tier sweeps
+// every power of two from 2^4 to 2^17 and the sizes half way between them, so
+// that a path of the implementation that is taken from some buffer length on
+// is exercised on both sides of wherever that length is.
+var bigSizesQuick = []int{1 << 14, 20000, 1 << 15}
+var midPoolQuick = []int{1024, 1536, 2048, 3000, 4096, 6000, 8192, 12000}
+var bigPoolQuick = []int{1<<14 - 1, 1<<14 + 1, 24576, 40000, 50000, 1 << 16}
+
+// bigStreams builds the streams for large buffers as descriptors: D = 5 .. 6
+// times the size in the quick tier (3 eviction passes, each over a full
+// buffer, two of them before the checkpoint in the middle of the stream), 4,
+// 10 or 20 times the size in the thorough tier.
+func bigStreams(h *vk.H) []StatCase {
+	rng := h.RNG("big")
+	var out []StatCase
+	add := func(size, mult, k, R int, order, kind string) {
+		c := StatCase{Size: size, R: R, Elem: kind, D: mult*size + rng.Intn(size), K: k, Order: order, Seed: rng.Uint64() | 1}
+		c.Mid = len(c.expand().Vals) / 2
+		out = append(out, c)
+	}
+	if !h.Thorough() {
+		for _, size := range bigSizesQuick {
+			add(size, 5, 1, 128, "rounds", "")
+		}
+		mid := midPoolQuick[rng.Intn(len(midPoolQuick))]
+		add(mid, 5+rng.Intn(4), 1+rng.Intn(2), bigR(mid, 1<<20, 1024), orders[rng.Intn(2)], longKinds[rng.Intn(len(longKinds))])
+		big := bigPoolQuick[rng.Intn(len(bigPoolQuick))]
+		add(big, 5, 1, 128, orders[rng.Intn(2)], longKinds[rng.Intn(len(longKinds))])
+		return out
+	}
+	var sizes []int
+	for e := 4; e <= 17; e++ {
+		sizes = append(sizes, 1<<e, 3<<(e-1))
+	}
+	sizes = append(sizes, 20000, 1<<14-1, 1<<14+1, 1<<16-1, 1<<16+1, 100000)
+	for i, size := range sizes {
+		if i%max(h.NShards, 1) != h.Shard%max(h.NShards, 1) {
+			continue
+		}
+		mult := []int{10, 4, 20}[rng.Intn(3)]
+		add(size, mult, 1+rng.Intn(3), bigR(size, 1<<22, 40000), orders[rng.Intn(2)], longKinds[rng.Intn(len(longKinds))])
 	}
 	return out
 }
@@ -342,7 +366,7 @@ func statStreams(h *vk.H, R int) []StatCase {
 // (on all cores), mean of Count against the true distinct count.
 func TestC19Stat(t *testing.T) {
 	h := vk.Start(t, "C19", "stat")
-	R := h.Pick(4000, 40000)
+	smallR := h.Pick(4000, 40000)
 	slot := h.Slot()
 	tl := vk.NewTally()
 	maxAbsT, checkpoints := 0.0, 0
@@ -351,13 +375,16 @@ func TestC19Stat(t *testing.T) {
 	// then fails again most reliably).
 	var worst *StatCase
 	worstMsg, worstT := "", 0.0
-	for _, c := range statStreams(h, R) {
+	for _, compact := range append(statStreams(h, smallR), bigStreams(h)...) {
+		// compact is what is recorded (a stream for a large buffer is a
+		// descriptor); c has the explicit stream
+		c, R := compact.expand(), clampR(compact.R)
 		mids, ends := make([]float64, R), make([]float64, R)
 		oneCounter, bad := statRunner(c)
 		if bad != "" {
 			t.Fatal(bad)
 		}
-		slot.Enter(c)
+		slot.Enter(compact)
 		var pmsg atomic.Value
 		vk.Parallel(h, R, func(worker, i int) {
 			if m := vk.Guard(func() string { mids[i], ends[i] = oneCounter(); return "" }); m != "" {
@@ -367,13 +394,13 @@ func TestC19Stat(t *testing.T) {
 		res, msg := evalStat(c, mids, ends)
 		slot.Leave()
 		if m, ok := pmsg.Load().(string); ok {
-			p := h.Fail(c, m)
+			p := h.Fail(compact, m)
 			t.Fatalf("VK-VIOLATION property=C19 leg=stat replay=%s\n%s", p, m)
 		}
 		if msg != "" {
 			sig := math.Max(math.Abs(res.TEnd), math.Abs(res.TMid)) // +Inf for a mismatch in the exact regime
 			if worst == nil || sig > worstT {
-				cc := c
+				cc := compact
 				worst, worstMsg, worstT = &cc, msg, sig
 			}
 			continue
@@ -403,6 +430,14 @@ func TestC19Stat(t *testing.T) {
 		if size < 8 {
 			tl.Classes["heavy_tailed_size<8"]++
 		}
+		switch {
+		case size >= 1<<14:
+			tl.Classes["buffer>=2^14"]++
+		case size >= 1<<10:
+			tl.Classes["buffer 2^10..2^14-1"]++
+		case size > 64:
+			tl.Classes["buffer 65..1023"]++
+		}
 		tl.Classes["elem="+kindName(c.Elem)]++
 		for _, x := range []float64{res.TEnd, res.TMid} {
 			if math.Abs(x) > maxAbsT {
@@ -410,7 +445,7 @@ func TestC19Stat(t *testing.T) {
 			}
 		}
 		checkpoints += 2
-		h.Sample(c, nt)
+		h.Sample(compact, nt)
 		h.Count("counter_runs", int64(R))
 		h.Note("size %d, elem %s, %d values, %d distinct (mid %d): mean %.3f (t=%+.2f), mid mean %.3f (t=%+.2f), s/d=%.3f",
 			size, kindName(c.Elem), len(c.Vals), d, res.DMid, res.End.Mean, res.TEnd, res.Mid.Mean, res.TMid, res.End.SD/math.Max(1, float64(d)))
@@ -420,5 +455,5 @@ func TestC19Stat(t *testing.T) {
 		t.Fatalf("VK-VIOLATION property=C19 leg=stat replay=%s\n%s", p, worstMsg)
 	}
 	h.MergeTally(tl)
-	h.Note("R = %d counters per stream; largest |t| over %d checkpoints: %.2f (band +8 s.e.; -8 s.e. for size >= 8, -12 for sizes 4..7, -16 for sizes 2..3)", R, checkpoints, maxAbsT)
+	h.Note("R = %d counters per stream of a listed size, 128..%d for the large buffers; largest |t| over %d checkpoints: %.2f (band +8 s.e.; -8 s.e. for size >= 8, -12 for sizes 4..7, -16 for sizes 2..3)", smallR, smallR, checkpoints, maxAbsT)
 }
